@@ -267,6 +267,21 @@ Proof.
   - apply upd_same.
 Qed.
 
+(* Under the guard "the input residual is zero" the equation holds after exogenize -- also for the code before
+   fixes/C17_1.patch (this lemma is placed first so that on that code it is still checked). *)
+Lemma cell_after_exogenize_zero_residual (e : eqn) t v (d : data) r :
+  e_res e = Some r -> r <> e_lhs e -> ~ In (r, t) (cells_of (e_rhs e) t) -> d r t = 0 ->
+  holds e t (exogenize_cell A e t v d).
+Proof.
+  intros Hres Hne Hrhs Hz.
+  unfold holds, exogenize_cell, exogenize_gen, set_lhs, set_res, eval_residual, lhs_value, rhs_total.
+  rewrite Hres.
+  repeat rewrite (eval_upd _ _ _ r t) by exact Hrhs.
+  repeat (rewrite upd_same || rewrite (upd_other _ r t) by (intros E; injection E as E; auto; lia)).
+  rewrite ?(upd_other _ (e_lhs e) t v r t) by (intros E; injection E as E; auto).
+  rewrite ?Hz. gen_unfold. ring.
+Qed.
+
 (* The equation holds after exogenize, whatever residual the input databox carried.
    (On the code before fixes/C17_1.patch the residual body was evaluated with the OLD residual still in the
     RHS and this lemma was false: see exogenize_unrepaired_refuted below.) *)
@@ -283,18 +298,6 @@ Proof.
   gen_unfold. ring.
 Qed.
 
-(* the same under the guard "the input residual is zero" (holds for the unrepaired code as well) *)
-Lemma cell_after_exogenize_zero_residual (e : eqn) t v (d : data) r :
-  e_res e = Some r -> r <> e_lhs e -> ~ In (r, t) (cells_of (e_rhs e) t) -> d r t = 0 ->
-  holds e t (exogenize_cell A e t v d).
-Proof.
-  intros Hres Hne Hrhs Hz.
-  unfold holds, exogenize_cell, exogenize_gen, set_lhs, set_res, eval_residual, lhs_value, rhs_total.
-  rewrite Hres.
-  repeat rewrite (eval_upd _ _ _ r t) by exact Hrhs.
-  repeat (rewrite upd_same || rewrite (upd_other _ r t) by (intros E; injection E as E; auto; lia)).
-  rewrite ?Hz. gen_unfold. ring.
-Qed.
 
 (* ---------- 5. the loop: reads-before-writes implies every equation holds at the end ---------- *)
 Notation stepT := (Z * eqn)%type.
